@@ -10,6 +10,7 @@ An edge `p → x` of the graph is `p ∈ P x` (`P` = the predecessor function).
 -/
 import HvGraphAlg.Proofs.Topo
 import HvGraphAlg.Proofs.UFHistory
+import HvGraphAlg.Proofs.SMRefuse
 namespace HvGraphAlg
 
 /-! ## `topo_sort` -/
@@ -32,7 +33,7 @@ theorem aux_topoSort_spec {n : Nat} {ids : List Nat} {P : Nat → List Nat} (hb 
     | .fuel => False := by
   have h := topoSortS_spec (σ := Unit) (fun s k => (s, P k)) (P := P)
     (R := fun x => x < n ∧ ReachFrom P ids x) (I := fun _ => True) (n := n)
-    (fun _ _ => rfl) (fun _ _ _ => trivial)
+    (fun _ _ _ => rfl) (fun _ _ _ => trivial)
     (fun x hx p hp => ⟨hb.preds x hx.1 p hp, .pred hx.2 hp⟩) (fun x hx => hx.1)
     ids () (fun i hi => ⟨hb.ids i hi, .start hi⟩) trivial
   unfold topoSort
@@ -119,11 +120,11 @@ theorem topoSort_ok_iff_acyclic {n : Nat} {ids : List Nat} {P : Nat → List Nat
     | fuel => exact absurd hr (topoSort_total hb)
 
 /-- The same guarantees hold when the predecessor closure is stateful (`FnMut`, as the closure
-`try_merge` passes) as long as the predecessors it returns are those of a fixed graph `P`;
-any invariant `I` of the captured state is preserved. -/
+`try_merge` passes) as long as the predecessors it returns are those of a fixed graph `P`
+whenever an invariant `I` of the captured state holds; `I` is preserved. -/
 theorem topoSortS_ok_or_cycle {σ : Type} {n : Nat} {ids : List Nat} {P : Nat → List Nat}
-    (hb : Bounded n ids P) (predsFn : σ → Nat → σ × List Nat) (hP : ∀ s k, (predsFn s k).2 = P k)
-    (I : σ → Prop) (hI : ∀ s k, I s → I (predsFn s k).1) (s : σ) (hs : I s) :
+    (hb : Bounded n ids P) (predsFn : σ → Nat → σ × List Nat) (I : σ → Prop)
+    (hP : ∀ s k, I s → (predsFn s k).2 = P k) (hI : ∀ s k, I s → I (predsFn s k).1) (s : σ) (hs : I s) :
     match topoSortS n ids predsFn s with
     | (.ok o, s') => o.Nodup ∧ (∀ i ∈ ids, i ∈ o) ∧
         (∀ x ∈ o, ∀ p ∈ P x, p ∈ o ∧ o.idxOf p < o.idxOf x) ∧ I s'
@@ -194,5 +195,48 @@ theorem uf_find_iff_connected {n : Nat} (ops : List UfOp) (hb : ∀ op ∈ ops, 
 
 example : (ufSame 4 (ufRun 4 [.union 0 1, .same 0 3, .union 2 0]) 1 2).2 = true := by decide
 example : (ufSame 4 (ufRun 4 [.union 0 1, .same 0 3, .union 2 0]) 1 3).2 = false := by decide
+
+/-! ## `SubgraphMerge`
+
+`Inv G E sm gs` (`Proofs/SMInv.lean`) is the invariant, for the node graph `G` and the enemy pairs
+`E` given to `new`, with `gs` the list of groups in layout order:
+* `order` is a permutation of the nodes and equals `gs.flatten` — every group is contiguous;
+* each group starts with its representative, all its members have that representative
+  (so a group is exactly a union-find class), and `sg_idx` / `sg_len` of the representative are
+  the start and length of its range (`Layout`);
+* `order` is a topological order of the node graph (`Pairwise (NoBack G)`: no later node is a
+  predecessor of an earlier one) — in particular of the quotient graph over groups;
+* `subgraph_preds` of a representative describes the incoming quotient edges of its group;
+* the enemy set of a representative is the set of representatives of the classes joined to it
+  by an enemy pair, and no enemy pair lies inside one class (`apart`).
+-/
+
+/-- `new` succeeds with every node in its own group and establishes the invariant. -/
+theorem new_establishes_Inv {n : Nat} {G : Nat → List Nat} {E : List (Nat × Nat)} {sm : SM}
+    (hG : ∀ k, k < n → ∀ p ∈ G k, p < n) (hE : ∀ a b, (a, b) ∈ E → a < n ∧ b < n)
+    (h : SM.new n G E = .ok sm) : Inv G E sm (sm.order.map (fun x => [x])) ∧ sm.n = n :=
+  new_inv hG hE h
+
+/-- `try_merge` answers `false` exactly when the two nodes are in different groups and either an
+enemy pair joins the two groups or a third group lies on a path between them in the quotient
+graph (merging would close a cycle through it). -/
+theorem tryMerge_refuses_iff {G : Nat → List Nat} {E : List (Nat × Nat)} {sm : SM} {gs : List (List Nat)}
+    (h : Inv G E sm gs) {u0 v0 : Nat} (hu0 : u0 < sm.n) (hv0 : v0 < sm.n) :
+    (sm.tryMerge u0 v0).2 = .refused ↔
+      rootFn sm.uf u0 ≠ rootFn sm.uf v0 ∧
+        (EnemyConflict E sm (rootFn sm.uf u0) (rootFn sm.uf v0) ∨
+          MergeCycle G sm (rootFn sm.uf u0) (rootFn sm.uf v0) ∨
+          MergeCycle G sm (rootFn sm.uf v0) (rootFn sm.uf u0)) :=
+  tryMerge_refused_iff h hu0 hv0
+
+/-- A refused merge, and a merge of two nodes already in one group, keep the order, the groups
+and the invariant (only path compression happens). -/
+theorem tryMerge_refused_preserves_Inv {G : Nat → List Nat} {E : List (Nat × Nat)} {sm : SM}
+    {gs : List (List Nat)} (h : Inv G E sm gs) {u0 v0 : Nat} (hu0 : u0 < sm.n) (hv0 : v0 < sm.n)
+    (hr : (sm.tryMerge u0 v0).2 = .refused ∨ rootFn sm.uf u0 = rootFn sm.uf v0) :
+    Inv G E (sm.tryMerge u0 v0).1 gs ∧ (sm.tryMerge u0 v0).1.order = sm.order ∧
+      rootFn (sm.tryMerge u0 v0).1.uf = rootFn sm.uf :=
+  let h' := tryMerge_noop_inv h hu0 hv0 hr
+  ⟨h'.1, h'.2.1, h'.2.2.1⟩
 
 end HvGraphAlg
